@@ -310,8 +310,10 @@ def gen_seq(rng, nops, forced=None):
     g = Gen(rng, roots, children, dim, disc)
     tree = [[g.pos(), [g.pos() for _ in range(children)]] for _ in range(roots)]
     ops = g.generate(nops)
+    # debug logging of the state handler on / off is one more input dimension (it must be invisible)
+    debug = rng.random() < 0.3
     return {"dim": dim, "roots": roots, "children": children, "tree": tree, "ops": ops, "disc": disc,
-            "undisciplined_writes": g.violations}
+            "undisciplined_writes": g.violations, "debug": debug}
 
 
 # ----------------------------------------------------------------------------------------------------
@@ -570,7 +572,7 @@ REAL_CONFIGS = [
 ]
 
 
-def real_runs(ctx, configs=None):
+def real_runs(ctx, configs=None, debug=None):
     if configs is None:
         n = ctx.n(4, len(REAL_CONFIGS))
         configs = list(REAL_CONFIGS)
@@ -579,7 +581,8 @@ def real_runs(ctx, configs=None):
     end = ctx.n("6.0", "40.0")
     payloads = [{"mode": "runs", "config": {
         "ini": c, "seed": ctx.rng.randrange(1 << 30), "check_extract_every": 7,
-        "override": [["FinalTimeEndOfRunEventHandler", "end_of_run_time", end]]}} for c in configs]
+        "debug": (debug if debug is not None else i % 2 == 0),      # every other run with debug logging on
+        "override": [["FinalTimeEndOfRunEventHandler", "end_of_run_time", end]]}} for i, c in enumerate(configs)]
     outs = C.run_driver_parallel(ctx, "c13_state", payloads, timeout=1500)
     return [o["out"][0] for o in outs]
 
@@ -587,7 +590,7 @@ def real_runs(ctx, configs=None):
 BATCH = 2500
 
 
-def run(ctx, seqs_override=None, with_real_runs=True, run_configs=None):
+def run(ctx, seqs_override=None, with_real_runs=True, run_configs=None, run_debug=None):
     C.build_scratch(ctx, exts=("heap", "mic", "ipc") if with_real_runs else ())
     broken = []
     ok, out, nthm = C.check_props(ctx)
@@ -597,7 +600,7 @@ def run(ctx, seqs_override=None, with_real_runs=True, run_configs=None):
     nops = 30
 
     # ---- op sequences, in batches (a thorough run would not fit in memory otherwise)
-    stats = {"kinds": {}, "shapes": set(), "nseq": 0, "ndisc": 0, "undisc_writes": 0, "nsteps": 0, "changed": 0,
+    stats = {"kinds": {}, "shapes": set(), "nseq": 0, "ndisc": 0, "ndebug": 0, "undisc_writes": 0, "nsteps": 0, "changed": 0,
              "max_alias": 0, "charge_alias": 0, "distinct": set(), "neval": 0, "nfiles": 0, "nok": 0, "samples": []}
     fails = []          # (sequence, (op index, message))
     mism = []           # sequences on which model and implementation disagree
@@ -661,6 +664,7 @@ def run(ctx, seqs_override=None, with_real_runs=True, run_configs=None):
         for s, o in zip(seqs, outs):
             stats["nseq"] += 1
             stats["ndisc"] += 1 if s["disc"] else 0
+            stats["ndebug"] += 1 if s.get("debug") else 0
             stats["undisc_writes"] += s.get("undisciplined_writes", 0)
             stats["shapes"].add((s["roots"], s["children"], s["dim"], s["disc"]))
             stats["nsteps"] += len(s["ops"])
@@ -683,7 +687,7 @@ def run(ctx, seqs_override=None, with_real_runs=True, run_configs=None):
     runs = []
     run_fail = None
     if with_real_runs and (seqs_override is None or run_configs):
-        runs = real_runs(ctx, run_configs)
+        runs = real_runs(ctx, run_configs, run_debug)
         for r in runs:
             if r.get("exc"):
                 broken.append("real run %s did not complete: %s" % (r["config"], r["exc"][-300:]))
@@ -736,6 +740,7 @@ def run(ctx, seqs_override=None, with_real_runs=True, run_configs=None):
         "input_distribution": {"sequences": stats["nseq"], "ops_by_kind": stats["kinds"],
                                "tree_shapes_x_dim_x_discipline": len(stats["shapes"]),
                                "disciplined_sequences": stats["ndisc"],
+                               "sequences_with_debug_logging_enabled": stats["ndebug"],
                                "undisciplined_writes (through inserted / uncopied branches)": stats["undisc_writes"],
                                "ops_after_which_global_state_changed": stats["changed"],
                                "max_aliased_slots_observed": stats["max_alias"],
@@ -746,7 +751,7 @@ def run(ctx, seqs_override=None, with_real_runs=True, run_configs=None):
         "oracle_failures": len(fails),
         "traces_validated_against_impl": stats["neval"],
         "case_files": stats["nfiles"], "case_files_ok": stats["nok"],
-        "real_runs": [{k: r.get(k) for k in ("config", "commits", "units_inserted", "extracts",
+        "real_runs": [{k: r.get(k) for k in ("config", "debug_logging", "commits", "units_inserted", "extracts",
                                               "changed_between_commits", "insert_not_exact", "extract_changed_state")}
                       for r in runs],
         "explanation": "Props/C13.v re-checked (%d theorems); op sequences replayed by Model/StateHandler.v inside Coq "
@@ -775,12 +780,13 @@ ASSUME = [
 
 def load_corpus():
     p = os.path.join(C.VERIF, "corpus", "C13", "seqs.json")
-    return json.load(open(p)) if os.path.exists(p) else []
+    seqs = json.load(open(p)) if os.path.exists(p) else []
+    return seqs + [dict(s, debug=True) for s in seqs]       # every regression sequence also with debug logging on
 
 
 def replay(ctx, path):
     data = json.load(open(path))
     if data.get("kind") == "c13-run":
-        run(ctx, seqs_override=[], run_configs=[data["run"]["config"]])
+        run(ctx, seqs_override=[], run_configs=[data["run"]["config"]], run_debug=data["run"].get("debug_logging"))
     else:
         run(ctx, seqs_override=data.get("seqs", []), with_real_runs=False)
